@@ -23,6 +23,8 @@ type Worker struct {
 	pool   []Model // recent models, tried before asking the solver
 	strObj map[string]*Obj
 	Opts   Options
+
+	reachedIf map[string]bool
 }
 
 type Options struct {
@@ -41,6 +43,7 @@ type Options struct {
 	Regions       []Region
 	Cross         []string // extra solvers on which assertion queries are re-discharged
 	KeepTapes     int      // sample this many path models per instance as validation tapes
+	AssertPrefix  string   // only assertions whose label starts with this are active
 }
 
 func NewWorker(e *Engine, o Options) (*Worker, error) {
@@ -67,7 +70,7 @@ func NewWorker(e *Engine, o Options) (*Worker, error) {
 	if err != nil {
 		return nil, err
 	}
-	w := &Worker{E: e, C: c, S: s, strObj: map[string]*Obj{}, Opts: o}
+	w := &Worker{E: e, C: c, S: s, strObj: map[string]*Obj{}, Opts: o, reachedIf: map[string]bool{}}
 	for _, name := range o.Cross {
 		cs, err := NewSolver(c, name, o.TimeoutMs)
 		if err != nil {
@@ -238,6 +241,7 @@ type Path struct {
 	preemptUsed  int
 	races        []string
 	shared       map[*Obj]bool
+	mapOrderFixed bool
 }
 
 type sideKey struct {
@@ -497,6 +501,11 @@ type Region struct {
 
 // Assert checks cond on the current path; a refutation is recorded.
 func (p *Path) Assert(cond *Term, label, site string) {
+	if pf := p.W.Opts.AssertPrefix; pf != "" && !strings.HasPrefix(label, pf) {
+		// an assertion that belongs to another property's check: neither checked
+		// nor assumed here, so it cannot mask anything
+		return
+	}
 	p.assertsN++
 	if p.covered == nil {
 		p.covered = map[string]bool{}
